@@ -276,7 +276,27 @@ def run(tape, kind):
         base = np.arange(bs * k, dtype=float).reshape((bs,) + tuple(shape))
         return base * 0.37 + tape.int('supplied_value', 1, 50) * 0.11
 
+    last_gen_outs = [None]
     for rq in range(n_req):
+        if rq and tape.chance('observations_replaced', 1, 4):
+            # between two requests the user gives new observed data for one node: in place
+            # (model.observed[x] = y) or by replacing the whole dict (model.observed = {...});
+            # every later request must see the new observation
+            cands = [x for x in order_names if idx[x]['kind'] in sp.OBSERVABLE_KINDS and
+                     idx[x].get('observed') is not None]
+            if cands:
+                x = tape.choice('reobserved_node', cands)
+                new = np.asarray(idx[x]['observed']) + 0.25 * tape.int('observed_shift', 1, 9)
+                if tape.chance('whole_dict_replaced', 1, 2):
+                    d_ = dict(model.observed)
+                    d_[x] = new
+                    model.observed = d_
+                    out.probes['observed_dict_replaced'] += 1
+                else:
+                    model.observed[x] = new
+                    out.probes['observed_item_replaced'] += 1
+                idx[x]['observed'] = new
+                out.ev('E new observation for %s' % x)
         rkind = tape.choice('request_kind', ['generate', 'handler', 'handler', 'observed'])
         bs = tape.int('batch_size', 1, 4)
         seed = tape.int('seed', 0, 9999)
@@ -304,6 +324,9 @@ def run(tape, kind):
                 continue
         if rkind == 'generate':
             outs = tape.subset('outputs', public, 1, 2) or [tape.choice('output', public)]
+            if last_gen_outs[0] and tape.chance('same_outputs_again', 1, 3):
+                outs = list(last_gen_outs[0])      # the same request once more on this model
+            last_gen_outs[0] = list(outs)
             wv_names = tape.subset('with_values', [p for p in public if idx[p]['kind'] != 'const'],
                                    1, 4) if tape.chance('use_with_values', 1, 2) else []
             wv = {n: random_value(n, bs) for n in wv_names}
